@@ -359,6 +359,13 @@ func (g *GoFakeS3) listBucketVersions(bucketName string, w http.ResponseWriter, 
 		page = ListBucketVersionsPage{}
 	}
 
+	// S300005: 'null' is what the listing shows in place of the empty version
+	// ID (see below), so that is what comes back as a marker. Backends only
+	// know the empty string:
+	if page.VersionIDMarker == "null" {
+		page.VersionIDMarker = ""
+	}
+
 	bucket, err := g.versioned.ListBucketVersions(bucketName, &prefix, &page)
 	if err != nil {
 		return err
